@@ -461,7 +461,7 @@ func c19Check(c c19Case) vfResult {
 }
 
 func TestVerif_C19(t *testing.T) {
-	vfRun(t, vfSub[c19Case]{Prop: "C19", Name: "gen", Checks: vfN(40000, 3000000), Gen: c19Gen, Check: c19Check,
+	vfRun(t, vfSub[c19Case]{Prop: "C19", Name: "gen", Checks: vfN(40000, 6000000), Gen: c19Gen, Check: c19Check,
 		Sample: func(c c19Case) any {
 			var es []string
 			for _, e := range c.Entries {
